@@ -110,7 +110,9 @@ def programs0(rng, n):
     out = []
     p, e = gen_all.allcodes("C17_all")
     p["pkgs"][0]["files"].append({"name": "d/recv.go", "src": RECV})
-    p["pkgs"].append({"path": "m/s", "name": "s", "files": [{"name": "s/shapes.go", "src": SHAPES}]})
+    # a file that the default configuration excludes by its *name* (not first of its package), full of reportable code
+    excluded = "package s\n\nimport \"m/d\"\n\nfunc inExcluded(p *d.T) {\n\tp.X = 2101\n\t_ = d.T{X: 2102}\n\t_ = d.TF(2103)\n\t_ = d.PF(2104)\n}\n"
+    p["pkgs"].append({"path": "m/s", "name": "s", "files": [{"name": "s/shapes.go", "src": SHAPES}, {"name": "s/wire_testdata.go", "src": excluded}]})
     out.append(p)
     for i in range(n):
         v = gen_xpkg.variant(rng)
